@@ -60,6 +60,23 @@ THEOREMS = [
     'C01.lammps_getters_refuse_iff', 'C01.normal_unique_of_gram', 'C01.turned_cell_not_normal',
     # tools/vect_angle.py regenerated and tied to the model's angleCos; what that cosine is
     'C01.src_vect_angle', 'C01.angleCos_spec', 'C01.angleCos_sq_le_one', 'C01.angleCos_scale',
+    # extension round — regenerated from the source and proved equal to the model (Proofs/C01_Source.lean): the clean-up
+    # statement of the vects setter and its atol literal, a b c with the root, vect_angle down to degrees (clamp, arccos, pi),
+    # set_abc with cos / pi / roots in place, trailing-dimension checks, System.scale / unscale
+    'C01.gen_cleanupAtol_eq_model', 'C01.gen_cleanupEntry_eq_model', 'C01.gen_cleanup_eq_model', 'C01.gen_lengths_eq_model',
+    'C01.gen_clamp_eq_model', 'C01.gen_angleDeg_eq_model', 'C01.gen_abcOfDeg_eq_model', 'C01.gen_shapes_eq_model',
+    'C01.gen_system_wrappers',
+    # the library routines as a parameter record with a specification met by the real functions (Proofs/C01_Trig.lean)
+    'C01.angleCos_strict', 'C01.angleDeg_spec', 'C01.clampCos_id', 'C01.clampCos_range', 'C01.clampCos_angleCos',
+    'C01.realTrig_spec',
+    # every ordered pair of the four parameter sets; degrees read back; cells not in LAMMPS orientation; refusals
+    'C01.cross_pos_of_det', 'C01.abc_roots_of_normal', 'C01.read_abc_rebuild_normal', 'C01.defined_isClean',
+    'C01.define_eq_clean_raw', 'C01.clean_normal_of_det', 'C01.defined_normal_of_det', 'C01.read_rebuild_same',
+    'C01.rebuild_any_pair', 'C01.rebuild_any_pair_fixpoint', 'C01.abc_readback_degrees', 'C01.gram_det_dots',
+    'C01.abc_radicands_pos', 'C01.rebuild_turned_cell', 'C01.real_rebuild_any_pair', 'C01.real_abc_readback_degrees',
+    'C01.setAbcDeg_eq_setOp', 'C01.define_refuses_iff', 'C01.readAs_refuses_iff',
+    # arrays of points and their shapes
+    'C01.conv_rows', 'C01.conv_rows_inverse', 'C01.insideAll_iff_rel', 'C01.convShape_ok_iff',
 ]
 PARTIAL = {
     'angles_in_degrees': 'read-back of lengths and angles is proved in squared / cosine form over every ordered field '
@@ -419,7 +436,7 @@ def translate():
     A('variable {K : Type}')
     A('')
     A('section formulas')
-    A('variable [Zero K] [OfNat K 180] [Neg K] [Add K] [Sub K] [Mul K] [Div K] [LT K] [LE K] [DecidableLT K] [DecidableLE K]')
+    A('variable [Zero K] [One K] [OfNat K 180] [Neg K] [Add K] [Sub K] [Mul K] [Div K] [LT K] [LE K] [DecidableLT K] [DecidableLE K]')
     A('  [DecidableEq K]')
     A('')
     base = {}
@@ -726,6 +743,131 @@ def translate():
     out_ok = len(sob) == 1 and ast.unparse(sob[0]) == 'return ~self.inside(pos, inclusive=not inclusive)'
     A('/-- `Shape.outside` is `~self.inside(pos, inclusive=not inclusive)` and `Box` does not override it. -/')
     A(f'def outsideIsNotInsideOpposite : Bool := {"true" if out_ok else "false"}')
+    # ---- extension round: float library routines as the parameter record `T : Trig K`; the clean-up statement; shapes --------
+    class TrT(Tr):
+        """`np.cos(x)` -> `T.cos x`, `np.arccos(x)` -> `T.acos x`, `np.pi` -> `T.pi`, `(E)**0.5` -> `T.sqrt E`, literals 1 / -1."""
+        def tr(self, n):
+            if isinstance(n, ast.Constant) and not isinstance(n.value, bool) and n.value == 1:
+                return '1', 'K'
+            if isinstance(n, ast.Attribute) and ast.unparse(n) == 'np.pi':
+                return 'T.pi', 'K'
+            if isinstance(n, ast.Call) and ast.unparse(n.func) in ('np.cos', 'np.arccos') and len(n.args) == 1 and not n.keywords:
+                a, t_ = self.tr(n.args[0])
+                if t_ != 'K':
+                    fail(f'{ast.unparse(n.func)} of a non-scalar')
+                return f'(T.{"cos" if ast.unparse(n.func) == "np.cos" else "acos"} {a})', 'K'
+            if isinstance(n, ast.BinOp) and isinstance(n.op, ast.Pow) and isinstance(n.right, ast.Constant) and n.right.value == 0.5:
+                a, t_ = self.tr(n.left)
+                if t_ != 'K':
+                    fail('root of a non-scalar')
+                return f'(T.sqrt {a})', 'K'
+            return super().tr(n)
+
+    # the clean-up statement of the vects setter
+    if len(vb) != 3:
+        fail('vects setter is not copy-in / clean-up / cache drop')
+    cu = vb[1]
+    ok_cu = (isinstance(cu, ast.Assign) and len(cu.targets) == 1 and isinstance(cu.targets[0], ast.Subscript)
+             and ast.unparse(cu.targets[0].value) == 'self.__vects' and isinstance(cu.targets[0].slice, ast.Call)
+             and ast.unparse(cu.targets[0].slice.func) == 'np.isclose' and len(cu.targets[0].slice.args) == 2)
+    if not ok_cu:
+        fail('clean-up statement is not self.__vects[np.isclose(<ratio>, <0.0>, atol=…)] = <0.0>')
+    isc = cu.targets[0].slice
+    kws_c = {k_.arg: k_.value for k_ in isc.keywords}
+    if sorted(kws_c) != ['atol'] or not (isinstance(kws_c['atol'], ast.Constant) and isinstance(kws_c['atol'].value, float)):
+        fail('np.isclose of the clean-up has keywords other than a literal atol (rtol would not matter against 0.0, anything else does)')
+    if not (isinstance(isc.args[1], ast.Constant) and isc.args[1].value == 0 and isinstance(cu.value, ast.Constant) and cu.value.value == 0
+            and not isinstance(cu.value.value, bool)):
+        fail('clean-up does not compare with 0.0 and store 0.0')
+    ratio = isc.args[0]
+    if not (isinstance(ratio, ast.BinOp) and isinstance(ratio.op, ast.Div) and ast.unparse(ratio.left) == 'self.__vects'):
+        fail('clean-up ratio is not self.__vects / <max>')
+    mx = ast.unparse(ratio.right)
+    if mx not in ('abs(self.__vects).max()', 'np.abs(self.__vects).max()', 'np.max(np.abs(self.__vects))', 'np.max(abs(self.__vects))'):
+        fail(f'clean-up divides by {mx}, not by the largest absolute entry')
+    atol_fr = Fraction(kws_c['atol'].value)
+    A('/-- the `atol=` literal of the clean-up statement of the `vects` setter: the double it denotes, exactly. -/')
+    A(f'def cleanupAtolNum : Nat := {atol_fr.numerator}')
+    A(f'def cleanupAtolDen : Nat := {atol_fr.denominator}')
+    A('/-- one entry of `self.__vects[np.isclose(self.__vects / abs(self.__vects).max(), 0.0, atol=thr)] = 0.0`:')
+    A('    `np.isclose(r, 0.0, atol=thr)` is `|r - 0.0| <= thr + rtol * |0.0|`, i.e. `|r| <= thr`. -/')
+    A('def cleanupEntry (thr M x : K) : K := if absK (x / M) ≤ thr then 0 else x')
+    A('/-- the whole statement; `M` = the largest absolute entry. -/')
+    A('def cleanupVects (thr : K) (vects : M3 K) : M3 K :=\n  let M := maxAbs vects\n  ⟨'
+      + ', '.join('⟨' + ', '.join(f'cleanupEntry thr M vects.r{i}.{cc}' for cc in COMP) + '⟩' for i in range(3)) + '⟩')
+    # getters a b c with the root
+    for nm in 'abc':
+        e, ty = TrT(base).tr(ret_expr(nm))
+        A(f'/-- the getter `{nm}`. -/')
+        A(f'def {nm}Len (T : Trig K) (vects : M3 K) : K := {e}')
+    # vect_angle down to the angle in degrees
+    if rest != [clamp, fin]:
+        fail('vect_angle: clamp / unit conversion not in the expected form')
+    tnode = vbody[k]
+    hnd = tnode.handlers[0].body
+    if not (len(hnd) == 1 and isinstance(hnd[0], ast.If) and len(hnd[0].orelse) == 1 and isinstance(hnd[0].orelse[0], ast.If)
+            and not hnd[0].orelse[0].orelse):
+        fail('vect_angle: scalar clamp is not if / elif')
+    tv = TrT({'cosine': ('cosine', 'K')})
+    cl = []
+    for br in (hnd[0], hnd[0].orelse[0]):
+        if not (len(br.body) == 1 and isinstance(br.body[0], ast.Assign) and ast.unparse(br.body[0].targets[0]) == 'cosine'):
+            fail('vect_angle: clamp branch does not assign cosine')
+        cl.append((_cmp(br.test, tv, fail), tv.tr(br.body[0].value)[0], ast.unparse(br.test), ast.unparse(br.body[0].value)))
+    if [ast.unparse(st) for st in tnode.body] != [f'cosine[{c_[2]}] = {c_[3]}' for c_ in cl]:
+        fail('vect_angle: array clamp and scalar clamp differ')
+    deg_expr = tv.tr(vbody[k + 1].body[0].value)[0]
+    A('/-- the scalar clamp of `vect_angle`. -/')
+    A(f'def vectAngleClamp (cosine : K) : K := if {cl[0][0][8:-1]} then {cl[0][1]} else if {cl[1][0][8:-1]} then {cl[1][1]} else cosine')
+    A('/-- `vect_angle(vect1, vect2)` in degrees for one pair of vectors; `np.linalg.norm(v, axis=-1)` = the root of the sum of squares. -/')
+    A('def vectAngleDeg (T : Trig K) (vect1 vect2 : V3 K) : K :=\n  let n1 := T.sqrt (V3.normSq vect1)\n  let n2 := T.sqrt (V3.normSq vect2)\n'
+      f'  let cosine := {cos_expr[0]}\n  let cosine := vectAngleClamp cosine\n  {deg_expr}')
+    # set_abc with the library calls in place
+    tq = TrT({k_: (k_, 'K') for k_ in ('a', 'b', 'c', 'alpha', 'beta', 'gamma')})
+    lets_t = []
+    for st in ab[1:-1]:
+        nm = st.targets[0].id
+        e, ty = tq.tr(st.value)
+        lets_t.append(f'let {nm} := {e}')
+        tq.env[nm] = (nm, ty)
+    A('/-- the straight-line part of `set_abc` with `np.cos`, `np.pi` and the two roots as the record `T`. -/')
+    A('def abcOfDegSrc (T : Trig K) (a b c alpha beta gamma : K) : Lengths K :=\n  ' + '\n  '.join(lets_t)
+      + '\n  { lx := lx, ly := ly, lz := lz, xy := xy, xz := xz, yz := yz }')
+    # shapes: the trailing-dimension check of the two conversions; inside / outside have none of their own
+    def shape_lit(name, argname):
+        b_ = body(name)
+        _strip_check(b_, argname, fail)
+        cmpn = b_[1].test
+        if not (isinstance(cmpn, ast.Compare) and isinstance(cmpn.ops[0], ast.NotEq) and isinstance(cmpn.comparators[0], ast.Constant)
+                and isinstance(cmpn.comparators[0].value, int)):
+            fail(f'{name}: shape check is not `shape[-1] != <int>`')
+        return cmpn.comparators[0].value
+    A('/-- `position_relative_to_cartesian`: `ValueError` iff the trailing dimension differs from this number. -/')
+    A(f'def r2cTrailingDim : Nat := {shape_lit("position_relative_to_cartesian", "relpos")}')
+    A('/-- `position_cartesian_to_relative`: likewise. -/')
+    A(f'def c2rTrailingDim : Nat := {shape_lit("position_cartesian_to_relative", "cartpos")}')
+    A('/-- `Plane.below` takes `np.inner(self.normal, pos)` of `np.asarray(pos)` (trailing axis of `pos` against the 3-vector). -/')
+    A(f'def belowInnerOverLastAxis : Bool := {"true" if ast.unparse(bb[2]) == "normpos = np.inner(self.normal, pos)" else "false"}')
+    # System.scale / System.unscale: wrappers of the two conversions
+    sysrc = cm.source('atomman/core/System.py')
+    scls = [n for n in ast.parse(sysrc).body if isinstance(n, ast.ClassDef) and n.name == 'System']
+    if len(scls) != 1:
+        fail('class System not found')
+    wr = []
+    for wname in ('scale', 'unscale'):
+        wf = [n for n in scls[0].body if isinstance(n, ast.FunctionDef) and n.name == wname]
+        if len(wf) != 1:
+            fail(f'System.{wname} missing')
+        wb = [st for st in wf[0].body if not (isinstance(st, ast.Expr) and isinstance(st.value, ast.Constant))]
+        for st in wb[:-1]:
+            u_ = ast.unparse(st)
+            if not (u_.startswith('warnmsg = ') or u_.startswith('warnmsg += ') or u_.startswith('warnings.warn(warnmsg')):
+                fail(f'System.{wname}: statement {u_[:60]}')
+        if not isinstance(wb[-1], ast.Return) or [a_.arg for a_ in wf[0].args.args] != ['self', 'value']:
+            fail(f'System.{wname}: not (self, value) ending in return')
+        wr.append((wname, ast.unparse(wb[-1].value)))
+    A('/-- `System.scale` / `System.unscale`: what they return (nothing but deprecation warnings before). -/')
+    A('def systemWrappers : List (String × String) := [' + ', '.join(f'("{n_}", "{c_}")' for n_, c_ in wr) + ']')
     A('')
     A('end formulas')
     A('')
@@ -2111,6 +2253,179 @@ def _kw_correspond(ctx, rng):
                          f'{impl}, model {out}', {'op': 'kw', 'keywords': names, 'via': how, 'impl': impl, 'model': out})
 
 
+# ----------------------------------------------------------------------------------------
+# extension round: shapes of point arrays (convShape / insideShape), whole arrays row by row (r2cAll / c2rAll / insideAll),
+# the clamped cosine of vect_angle (clampCos . angleCos) — driver ops `shape`, `r2cs`, `c2rs`, `insides`, `angle`
+# ----------------------------------------------------------------------------------------
+EXT_SHAPES = [(), (3,), (1, 3), (4, 3), (2, 5, 3), (2, 1, 2, 3), (0, 3), (2, 0, 3), (3, 3), (1,), (2,), (4,), (0,), (3, 1), (3, 2),
+              (3, 4), (2, 3, 1), (5, 3, 0), (1, 1), (6,), (2, 2, 2), (3, 3, 3), (1, 3, 3), (3, 0)]
+
+
+def _cls_ext(e):
+    return 'err:index' if isinstance(e, IndexError) else _cls(e)
+
+
+def _ext_cell(rng):
+    """a LAMMPS cell on the dyadic grid (orthogonal or sheared) or a turned / permuted one, non-zero origin."""
+    lx, ly, lz = (_pos_dy(rng) for _ in range(3))
+    orth = rng.random() < 0.35
+    xy, xz, yz = (0.0, 0.0, 0.0) if orth else (_dy(rng, -4, 4), _dy(rng, -4, 4), _dy(rng, -4, 4))
+    V = [[lx, 0.0, 0.0], [xy, ly, 0.0], [xz, yz, lz]]
+    how = rng.choice(['lammps', 'lammps', 'turned', 'permuted'])
+    if how == 'turned':
+        V = [[r[0], -r[1], -r[2]] for r in V]
+    elif how == 'permuted':
+        V = [[r[1], r[2], r[0]] for r in V]
+    o = [_dy(rng, -8, 8) for _ in range(3)]
+    return V, o, orth and how == 'lammps'
+
+
+def _ext_correspond(ctx, rng, n):
+    import warnings
+    np = _np()
+    import atomman as am
+    jobs = []        # (lines, checker)
+    for it in range(n):
+        V, o, orth = _ext_cell(rng)
+        box = am.Box(vects=V, origin=o)
+        setline = 'vects ' + ' '.join(cm.fr(x) for r in V for x in r) + ' ' + ' '.join(cm.fr(x) for x in o)
+        desc = f'Box(vects={V}, origin={o})'
+        lines, checks = [setline], [('set', None, None)]
+        # --- shapes ---------------------------------------------------------------------
+        for sh in rng.sample(EXT_SHAPES, 8):
+            form = rng.choice(['array', 'array', 'list', 'int-array'])
+            arr = np.zeros(sh) if form != 'int-array' else np.zeros(sh, dtype=int)
+            arg = arr.tolist() if form == 'list' else arr
+            if form == 'list' and 0 in sh:
+                arg = arr             # an empty nested list loses its trailing dimensions
+            for which, calls in (('conv', (box.position_relative_to_cartesian, box.position_cartesian_to_relative)),
+                                 ('inside', (box.inside, box.outside))):
+                for f in calls:
+                    try:
+                        r = f(arg)
+                        impl = 'ok' + ''.join(f' {d}' for d in np.shape(r))
+                    except Exception as e:  # noqa
+                        impl = _cls_ext(e)
+                    lines.append(f'shape {which}' + ''.join(f' {d}' for d in sh))
+                    checks.append(('shape', impl, f'{f.__name__}({form} of shape {sh})'))
+        # --- whole arrays ---------------------------------------------------------------
+        k = rng.choice([1, 2, 4, 6, 12])
+        rel = [[Fraction(rng.randint(-6, 10), 4) + Fraction(1, 8) for _ in range(3)] for _ in range(k)]     # margin >= 1/8 to every face
+        if orth:
+            for row in rel[: k // 2]:
+                row[rng.randrange(3)] = Fraction(rng.choice([0, 1]))            # exactly on a face of an orthogonal grid cell
+        Vf = [[Fraction(x) for x in r] for r in V]
+        of = [Fraction(x) for x in o]
+        cart = [[sum(s_[i] * Vf[i][j] for i in range(3)) + of[j] for j in range(3)] for s_ in rel]
+        shp = rng.choice([(k, 3)] + ([(2, k // 2, 3), (k // 2, 2, 3)] if k % 2 == 0 else []) + ([(1, k, 1, 3)] if k > 1 else []))
+        R = np.array([[float(x) for x in row] for row in rel]).reshape(shp)
+        C = np.array([[float(x) for x in row] for row in cart]).reshape(shp)
+        if rng.random() < 0.3:
+            R, C = R.tolist(), C.tolist()
+        flat = lambda rows: ' '.join(cm.fr(float(x)) for row in rows for x in row)
+        for op, f, arg, rows in (('r2cs', box.position_relative_to_cartesian, R, rel), ('c2rs', box.position_cartesian_to_relative, C, cart)):
+            try:
+                impl = np.asarray(f(arg))
+            except Exception as e:  # noqa
+                impl = _cls_ext(e)
+            lines.append(f'{op} ' + flat(rows))
+            checks.append((op, impl, f'{f.__name__}(points of shape {shp})', shp))
+        for incl in (True, False):
+            try:
+                impl = np.asarray(box.inside(C, inclusive=incl))
+            except Exception as e:  # noqa
+                impl = _cls_ext(e)
+            lines.append(f'insides {int(incl)} ' + flat(cart))
+            checks.append(('insides', impl, f'inside(points of shape {shp}, inclusive={incl})', shp))
+        # --- the clamped cosine of the angle getters --------------------------------------
+        with warnings.catch_warnings():
+            warnings.simplefilter('ignore')
+            angs = {'alpha': (1, 2, box.alpha), 'beta': (0, 2, box.beta), 'gamma': (0, 1, box.gamma)}
+        Va = np.array(V)
+        for nm, (i, j, ang) in angs.items():
+            n1, n2 = float(np.linalg.norm(Va[i])), float(np.linalg.norm(Va[j]))
+            lines.append(f'angle {i} {j} {cm.fr(n1)} {cm.fr(n2)}')
+            checks.append(('angle', float(ang), nm))
+        jobs.append((lines, checks, desc))
+    outs = ctx.driver.ask_many([ln for lines, _, _ in jobs for ln in lines])
+    pos = 0
+    for lines, checks, desc in jobs:
+        for line, chk in zip(lines, checks):
+            out = outs[pos]
+            pos += 1
+            kind, impl = chk[0], chk[1]
+            rp = {'op': 'ext', 'cell': desc, 'line': line[:400], 'impl': repr(impl)[:300], 'model': out[:300]}
+            if kind == 'set':
+                if out != 'ok':
+                    ctx.disagree('ext:set', f'{desc}: model {out}', rp)
+                continue
+            ctx.stats.case('ext:' + kind, (desc, line), nontrivial=True, sample={'line': line[:200], 'cell': desc})
+            if kind == 'shape':
+                if impl != out:
+                    ctx.disagree(f'shape:{line.split()[1]}', f'{desc}.{chk[2]}: implementation {impl!r}, model {out!r}', rp)
+                continue
+            if isinstance(impl, str) or out.startswith('err:'):
+                if impl is not out and str(impl) != out:
+                    ctx.disagree(f'{kind}:error', f'{desc}.{chk[2]}: implementation {impl!r:.200}, model {out}', rp)
+                continue
+            if kind in ('r2cs', 'c2rs'):
+                m = cm.unfrs(out)
+                if tuple(impl.shape) != tuple(chk[3]) or impl.size != len(m):
+                    ctx.disagree(f'{kind}:shape', f'{desc}.{chk[2]}: result of shape {impl.shape}, model has {len(m) // 3} rows', rp)
+                    continue
+                tol = 0.0 if kind == 'r2cs' else 1e-9
+                for idx, (x, y) in enumerate(zip(impl.reshape(-1), m)):
+                    if abs(Fraction(float(x)) - y) > tol * max(1, abs(y)):
+                        ctx.disagree(f'{kind}:row', f'{desc}.{chk[2]}: flat entry {idx} (row {idx // 3}) = {float(x)!r}, model {float(y)!r}', rp)
+                        break
+            elif kind == 'insides':
+                m = [t == '1' for t in out.split()]
+                if tuple(impl.shape) != tuple(chk[3][:-1]) or impl.size != len(m) or impl.dtype != bool:
+                    ctx.disagree('insides:shape', f'{desc}.{chk[2]}: result of shape {impl.shape} dtype {impl.dtype}, model has {len(m)} flags', rp)
+                    continue
+                for idx, (x, y) in enumerate(zip(impl.reshape(-1), m)):
+                    if bool(x) != y:
+                        ctx.disagree('insides:row', f'{desc}.{chk[2]}: point {idx} reported {bool(x)}, model {y}', rp)
+                        break
+            elif kind == 'angle':
+                cmod = float(Fraction(out))
+                if not (-1.0 <= cmod <= 1.0):
+                    ctx.disagree('angle:clamp', f'{desc}: model cosine {cmod} outside [-1, 1] for {chk[2]}', rp)
+                elif not abs(math.cos(math.radians(impl)) - cmod) <= 64 * U:
+                    ctx.disagree(f'angle:{chk[2]}', f'{desc}.{chk[2]} = {impl!r} deg (cosine {math.cos(math.radians(impl))!r}), '
+                                 f'model clamped cosine {cmod!r}', rp)
+
+
+def _search_wrappers(ctx, rng, n):
+    """System.scale / System.unscale are the two conversions of the system's box (bitwise), for every container."""
+    import warnings
+    np = _np()
+    import atomman as am
+    for it in range(n):
+        V, o, _ = _ext_cell(rng)
+        box = am.Box(vects=V, origin=o)
+        system = am.System(box=box, atoms=am.Atoms(pos=[[0.0, 0.0, 0.0]]), scale=False)
+        k = rng.choice([1, 3, 4])
+        P = np.array([[_dy(rng, -8, 8) for _ in range(3)] for _ in range(k)])
+        arg = rng.choice([P, P.tolist(), P[0], P.reshape(1, k, 3), tuple(P[0])])
+        for nm, fs, fb in (('scale', system.scale, box.position_cartesian_to_relative),
+                           ('unscale', system.unscale, box.position_relative_to_cartesian)):
+            ctx.stats.case('wrapper:' + nm, (it, nm, repr(arg)[:80]), nontrivial=True)
+            try:
+                with warnings.catch_warnings():
+                    warnings.simplefilter('ignore')
+                    a = np.asarray(fs(arg))
+                b = np.asarray(fb(arg))
+                ok = a.shape == b.shape and a.tobytes() == b.tobytes()
+                what = f'{a.tolist()} vs {b.tolist()}'
+            except Exception as e:  # noqa
+                ok, what = False, f'raised {type(e).__name__}: {e}'
+            if not ok:
+                ctx.violate(f'wrapper:{nm}', f'System.{nm}({arg!r:.120}) of a system with Box(vects={V}, origin={o}) is not the '
+                            f"box's conversion of the same points: {what}",
+                            {'op': 'wrapper', 'vects': V, 'origin': o, 'arg': np.asarray(arg).tolist(), 'which': nm})
+
+
 def correspond(ctx):
     rng = ctx.rng
     _kw_correspond(ctx, random.Random(ctx.seed * 104729 + 5))
@@ -2118,6 +2433,7 @@ def correspond(ctx):
     if Fraction(t) != THR:
         ctx.disagree('thr', f'driver threshold {t} is not the double 1e-9', {'op': 'thr'})
     _check_threshold_literal(ctx)
+    _ext_correspond(ctx, random.Random(ctx.seed * 104729 + 6), ctx.n(60, 1200))
     scs = _special_scenarios(ctx, rng) + _scenarios(ctx, rng, ctx.n(250, 5000)) \
         + _perturb_scenarios(ctx, rng, ctx.n(120, 2500))
     lines = [it[0] for sc in scs for it in sc.items]
@@ -3662,6 +3978,7 @@ def search(ctx, broken):
             ctx.notes.append(f'replaying the correspondence disagreements through the clause oracle failed: {type(e).__name__}: {e}')
     rng = random.Random(ctx.seed * 7919 + 17)
     _search_redefinitions(ctx, rng, ctx.n(8, 160) * (2 if broken else 1))
+    _search_wrappers(ctx, random.Random(ctx.seed * 7919 + 23), ctx.n(40, 800))
     _search_types(ctx, random.Random(ctx.seed * 7919 + 18), ctx.n(1, 12))
     _search_keyword_orders(ctx, random.Random(ctx.seed * 7919 + 21), ctx.n(1, 12))
     _search_extreme_angles(ctx, random.Random(ctx.seed * 7919 + 22), ctx.n(96, 2400) * (2 if broken else 1))
